@@ -129,7 +129,7 @@ pub mod mspec {
                 // the pattern was found but fewer than 16 bytes follow it
                 first_pattern(input, pat_pos(input)) && pat_pos(input) + 16 > input.len() && n@ <= pat_pos(input) + 16 - input.len()
             },
-            Err(Err::Incomplete(NeededE::Unknown)) => input.len() < 16,
+            Err(Err::Incomplete(NeededE::Unknown)) => input.len() < 16 || (first_pattern(input, pat_pos(input)) && pat_pos(input) + 16 > input.len()),
             Err(_) => false,
         }
     }
